@@ -23,7 +23,7 @@ RULE = ('cases are histories of 4-12 steps (sign, corrupt, tick across expiry, v
         'wrong signature) present together with at least one advisory weakness; distinct = distinct (issue-class combination, '
         'subject kind, signature count) sets')
 TIERS = {'quick': {'runs': 4000, 'budget_s': 80}, 'thorough': {'runs': 200000, 'budget_s': 1500}}
-PROBES = ('expired_and_insecure_curve', 'expired_and_short_key', 'expired_and_revoked', 'expired_strong', 'wrongsig_and_revoked',
+PROBES = ('results_combined', 'combined_good_then_bad', 'expired_and_insecure_curve', 'expired_and_short_key', 'expired_and_revoked', 'expired_strong', 'wrongsig_and_revoked',
           'wrongsig_and_insecure_curve', 'wrongsig_and_short_key', 'wrongsig_and_weak_hash', 'clock_crossed_expiry', 'verifier_behind_signer',
           'multi_signature_call', 'verify_key_call', 'subkey_revoked_signer', 'all_good')
 KEYALGS = ['ed25519', 'ed25519', 'p256', 'p384', 'secp256k1', 'rsa1024', 'dsa1024', 'rsa2048', 'dsa2048']
@@ -52,7 +52,8 @@ def generate(rng, tier):
             steps.append({'id': sid, 'op': 'sign_verify', 'kind': kind, 'key': rng.choice(knames), 'target': rng.choice(knames),
                           'hash': rng.choice([8, 8, 10, 2, 1, 11]), 'nsigners': rng.choice([1, 2, 3]),
                           'corrupt': rng.choice([None, None, 'subject', 'sig', 'sig']), 'pos': rng.random(), 'bit': rng.randrange(8),
-                          'verify_after_tick_s': rng.choice([0, 0, 11 * DAY, 401 * DAY, -DAY])})
+                          'verify_after_tick_s': rng.choice([0, 0, 11 * DAY, 401 * DAY, -DAY]),
+                          'combine': rng.choice([None, None, 'and', 'iand'])})
     return {'config': {'keys': keys, 'start_us': 1_500_000_000_000_000 + 5 * DAY * 1_000_000}, 'steps': steps}
 
 
@@ -99,6 +100,7 @@ def execute(case, ctx):
     w = sigworld.SigWorld(cfg['keys'], ctx)
     clock.set(cfg['start_us'])
     combos = set()
+    w.results = []
     for step in case['steps']:
         ctx.step = step['id']
         ctx.steps_done += 1
@@ -183,6 +185,28 @@ def _sign_verify(pgpy, w, step, ctx, combos):
         ctx.viol('C17:truthiness-incoherent', 'bool(result)=%s but %d signature(s) are bad' % (truthy, len(bad)))
     if len(res) > 1:
         ctx.probe('multi_signature_call')
+    # --- results accumulate with '&' (that is how PGPy itself gathers several signatures into one object): the accumulated
+    # object, whose truth value has been looked at before, must be as coherent as a fresh one
+    if step.get('combine') and w.results:
+        prev, pg, pb = w.results[-1]
+        ctx.checked()
+        ctx.probe('results_combined')
+        if pb == 0 and bad:
+            ctx.probe('combined_good_then_bad')
+        if step['combine'] == 'and':
+            comb = prev & res
+        else:
+            comb = prev
+            comb &= res
+        cg, cb = list(comb.good_signatures), list(comb.bad_signatures)
+        if len(cg) != pg + len(good) or len(cb) != pb + len(bad) or len(comb) != len(cg) + len(cb):
+            ctx.viol('C17:combined-not-partitioned', 'combining results with %d+%d and %d+%d good+bad signatures lists %d+%d of %d'
+                     % (pg, pb, len(good), len(bad), len(cg), len(cb), len(comb)))
+        if bool(comb) != (len(cb) == 0):
+            ctx.viol('C17:combined-truthiness-incoherent', 'bool(combined result)=%s but %d signature(s) are bad' % (bool(comb), len(cb)))
+        w.results.append((comb, len(cg), len(cb)))
+    else:
+        w.results.append((res, len(good), len(bad)))
     # --- per signature: disqualifiers vs verdict
     classes, expired = _classes(w, name, now, step['hash'])
     if art.kind == 'inkey':
